@@ -65,7 +65,7 @@ func (f *Dotimes) Call(s *slip.Scope, args slip.List, depth int) slip.Object {
 			slip.TypePanic(s, depth, "dotimes input var", input[0], "symbol")
 		}
 		sym = slip.Symbol(strings.ToLower(string(sym)))
-		switch tc := ns.Eval(input[1], d2).(type) {
+		switch tc := slip.PrimaryValue(ns.Eval(input[1], d2)).(type) {
 		case slip.Integer:
 			max = tc.Int64()
 		case *slip.ReturnResult, *GoTo:
